@@ -260,7 +260,7 @@ static void run_c06(long cases) {
     for (long n = 0; n < cases; n++) {
         int nw = r.range(1, 6);
         std::vector<WriteSpec> ws;
-        static const size_t SZ[] = {1, 4095, 4096, 4097, 65536, 1 << 20};
+        static const size_t SZ[] = {0, 1, 4095, 4096, 4097, 65536, 1 << 20, 0};   // (an empty buffer is a write like any other: fulfilled with 0, nothing behind it held up)
         for (int i = 0; i < nw; i++) { size_t sz = r.chance(1, 2) ? r.pick(SZ) : (size_t)r.range(1, 200000); if (sz > 100000 && nw > 3) sz = 70000; bool foreign = r.chance(1, 4); ws.push_back({sz, !foreign && r.chance(1, 4), foreign}); }
         std::vector<lv::Act> script; int sl = r.range(0, 24);
         for (int k = 0; k < sl; k++) { int a = r.range(0, 3); script.push_back(a == 0 ? lv::Act{lv::A_PASS, 0} : a == 3 ? lv::Act{lv::A_EAGAIN, 0} : lv::Act{lv::A_SHORT, (size_t)r.range(1, 70000)}); }
@@ -376,7 +376,10 @@ struct BigHandler : public Http::Handler {
             int extra = atoi(req.query().get("extra").value_or("0").c_str());
             { lv::Interpose& I = lv::ip(); std::lock_guard<std::mutex> g(I.m); I.fds[response.peer()->fd()]; }
             auto peer = response.peer();
-            response.send(Http::Code::Ok, tagged(w, n));
+            int chain = atoi(req.query().get("chain").value_or("0").c_str());
+            auto sent = response.send(Http::Code::Ok, tagged(w, n));
+            // a write issued by the continuation of the blocked one: it can only arrive if that write's completion is reported
+            if (chain) sent.then([peer, w](ssize_t) { try { peer->send(RawBuffer(tagged(w + 50, 700), 700)); } catch (...) { } }, Async::IgnoreException);
             // further writes queued behind the blocked one
             for (int k = 0; k < extra; k++) peer->send(RawBuffer(tagged(w + 1 + (unsigned)k, 1000), 1000));
             std::lock_guard<std::mutex> g(g_m); g_peers[peer_port(peer)].fd = peer->fd();
@@ -435,10 +438,11 @@ static void run_c07(long cases) {
         if (when == 1) for (auto& o : others) if (!ping(*o, "/before", 5 * lf, nullptr)) key = "c07:harness:other-connection-not-served-before-block";
         // A requests the big response and does not read
         std::string bigFile;
+        int chain = (variant == 0 && r.chance(1, 2)) ? 1 : 0;
         if (variant == 1) { big = std::min<size_t>(big, 12u << 20); extra = 0; a.send_all("GET /bigstream?n=" + std::to_string(big) + "&w=77 HTTP/1.1\r\nHost: x\r\n\r\n"); }
         else if (variant == 3) { extra = 0; bigFile = g_tmpdir + "/big-" + std::to_string(idx) + ".bin"; { std::string all = tagged(77, big); FILE* f = fopen(bigFile.c_str(), "wb"); if (f) { fwrite(all.data(), 1, all.size(), f); fclose(f); } }
             a.send_all("GET /bigfile?f=" + bigFile + " HTTP/1.1\r\nHost: x\r\n\r\n"); }
-        else a.send_all("GET /big?n=" + std::to_string(big) + "&w=77&extra=" + std::to_string(extra) + " HTTP/1.1\r\nHost: x\r\n\r\n");
+        else a.send_all("GET /big?n=" + std::to_string(big) + "&w=77&extra=" + std::to_string(extra) + "&chain=" + std::to_string(chain) + " HTTP/1.1\r\nHost: x\r\n\r\n");
         int sfd = -1;
         wait_for([&] { std::lock_guard<std::mutex> g(g_m); auto it = g_peers.find(a.localPort); if (it == g_peers.end() || it->second.fd < 0) return false; sfd = it->second.fd; return true; }, 5 * lf);
         // wait until the kernel refuses more data (first would-block on A), bounded
@@ -484,11 +488,12 @@ static void run_c07(long cases) {
                 for (;;) { m2 = buf.size() >= off ? lv::parse_http(buf, off, true) : lv::HttpMsg(); if (m2.complete || !m2.error.empty() || lv::now() > d2) break; a.read_some(buf, 100); }
                 if (!m2.complete || m2.body != "pong:/second") key = "c07:request-sent-during-the-stall-never-answered";
             }
-            else if (extra) {
-                size_t want = m.consumed + (size_t)extra * 1000; double d2 = lv::now() + 5 * lf;
+            else if (extra || chain) {
+                size_t want = m.consumed + (size_t)extra * 1000 + (chain ? 700 : 0); double d2 = lv::now() + 5 * lf;
                 while (buf.size() < want && lv::now() < d2) a.read_some(buf, 100);
                 std::string tail = buf.substr(m.consumed), exp; for (int k = 0; k < extra; k++) exp += tagged(78 + (unsigned)k, 1000);
-                if (tail != exp) key = "c07:writes-queued-behind-blocked-one-lost-or-reordered";
+                if (chain) exp += tagged(77 + 50, 700);
+                if (tail != exp) key = tail == exp.substr(0, tail.size()) && chain && tail.size() == (size_t)extra * 1000 ? "c07:write-chained-on-the-blocked-write-never-issued" : "c07:writes-queued-behind-blocked-one-lost-or-reordered";
             }
         }
         if (slowThread.joinable()) slowThread.join();
